@@ -6,16 +6,26 @@ The abstract scene graph (class Model) is what the property's WF(world) denotes:
 and everything else is *derived* from it: live set per region, children of l = live objects of the region naming l as parent,
 orphans = live objects naming a parent that is not live.  The real code keeps all of that incrementally (two indices, ChildIDs /
 Children / Parent links, orphan lists, request futures); after every message the whole real structure is compared with the
-derived one.
+derived one (World._check_graph), every pending request with what the message must have done to it (World._check_futures), and
+the log with "no handler raises" (the event dispatcher swallows handler exceptions and logs them).
+
+Semantics taken from the repository's own tests rather than from the statement's wording: a seated avatar survives the kill of
+its seat and keeps naming it as parent (test_hierarchy_avatar_not_killed); an object that moves into a region the session does
+not know stays known by full id only (test_object_moved_to_bad_region).
 
 Two drivers share one world / model / oracle:
-  * transition coverage: every (abstract state, enabled message) pair over 3 local ids x 3 full ids (two prims, one avatar) x
-    2 regions (+1 unknown region handle), explored as one continuing session per <=40 messages (so that bookkeeping left over
-    by earlier messages is carried along), nearest-unexplored-first;
-  * random walks over the full alphabet (multi-block messages, terse / cached (hit, CRC match, miss) / compressed updates,
-    property replies, requests for objects and properties, region teardown and re-handshake, debounce timers firing).
-The statement's two environment assumptions are generator constraints (Model.enabled): no local id is given to two live
-objects of one region, and the parent links of a region never form a cycle.
+  * bounded_transitions: every (scene graph, enabled message) pair over 3 local ids x 3 full ids (two prims, one avatar) x
+    2 regions (+1 unknown region handle) with region teardown / re-handshake, up to renaming, each executed on the real session;
+    sessions continue for up to 60 messages so that bookkeeping left behind by earlier messages is carried along;
+  * bounded_random_walks: seeded sessions over the full alphabet (multi-block messages, terse / cached (viewer-cache hit, CRC
+    match, miss) / compressed updates, property replies, requests for objects and properties, teardown, debounce timers).
+The statement's two environment assumptions are generator constraints (Model.enabled / block_ok): no local id is given to two
+live objects of one region, and the parent links of a region never form a cycle.
+
+Harness notes: messages are delivered the way handle_proxied_packet does (session-level, then region-level handlers), one
+event-loop iteration runs between two messages (as between two datagrams), on a loop with a virtual clock; logging is enabled
+for the duration of a driver because the log is where handler exceptions show; the $HOME scan for viewer inventory caches that
+every new proxy session performs is stubbed out (machine dependent, unrelated to objects).
 """
 import asyncio
 import logging
@@ -50,6 +60,7 @@ class Model:
         self.tracked = [True, True]
         self.objs = {}                # full index -> [region | None (regionless), local, parent, crc]
         self.cache = cache or {}      # viewer object cache of both regions: local -> (full index, parent), crc CACHE_CRC
+        self._key = None
 
     def copy(self):
         m = Model(self.cache)
@@ -59,8 +70,11 @@ class Model:
 
     def key(self):
         # regionless objects: local / parent are irrelevant for the scene graph
-        return (tuple(self.tracked),
-                tuple((f, v[0], v[1], v[2]) if v[0] is not None else (f, None, 0, 0) for f, v in sorted(self.objs.items())))
+        k = self._key
+        if k is None:
+            k = self._key = (tuple(self.tracked),
+                             tuple((f, v[0], v[1], v[2]) if v[0] is not None else (f, -1, 0, 0) for f, v in sorted(self.objs.items())))
+        return k
 
     # -- derived views
     def live(self, r):
@@ -76,18 +90,6 @@ class Model:
             if v[0] == r and v[2] and v[2] not in live:
                 out.setdefault(v[2], []).append(v[1])
         return {k: sorted(v) for k, v in out.items()}
-
-    def _acyclic(self, r):
-        par = {v[1]: v[2] for v in self.objs.values() if v[0] == r}
-        for start in par:
-            seen = set()
-            cur = start
-            while cur in par and par[cur]:
-                if cur in seen:
-                    return False
-                seen.add(cur)
-                cur = par[cur]
-        return True
 
     # -- environment assumptions + what this harness can deliver
     def block_ok(self, r, local, fi, parent):
@@ -161,6 +163,8 @@ class Model:
             eff.hazards.add("regionless-object-updated")
         elif cur is not None and (cur[0], cur[1]) != (r, local):
             eff.cancelled.add((cur[0], cur[1]))
+        if (r, local) in eff.cancelled:
+            eff.hazards.add("local-id-reused-within-message")     # an earlier block of this message moved another object off (r, local)
         self.objs[fi] = [r, local, parent, crc]
         eff.resolved.add((r, local, UPDATE))
 
@@ -181,6 +185,7 @@ class Model:
 
     def apply(self, step, crc=0):
         eff = Effects()
+        self._key = None
         kind = step[0]
         if kind == "upd":
             for (local, fi, parent) in step[3]:
@@ -353,6 +358,18 @@ class Failure(Exception):
         self.hazards = ()
 
 
+# situations in which the unchanged tree is known to break one clause (reported as findings, each under its own key):
+HAZARD_CLAUSE = {
+    # a full / compressed update for an object that earlier moved into a region the session does not know:
+    # _update_existing_object calls old_region_state.untrack_object() / new_region_state.handle_object_reparented() on None
+    "regionless-object-updated": "raise",
+    # KillObject for a local id that is not tracked while a seated avatar names it as parent: _kill_object_by_local_id pops the
+    # orphan list, skips the avatar and never files it again
+    "avatar-orphan-of-unknown-killed": "orphans",
+    # one update message whose earlier block moves an object off a local id and whose later block announces another object under
+    # it, with a request pending for that id: resolve_futures calls set_result on the future cancel_futures has just cancelled
+    "local-id-reused-within-message": "raise",
+}
 DEFAULT_CONFIG = {"allow_auto": True, "auto_missing": False, "vo_cache": False, "cache": {}}
 
 
@@ -604,9 +621,16 @@ class World:
                 f.hazards += ("both-request-types",)
             raise
 
+    def _key(self, clause):
+        """a failure of exactly the clause a documented hazard is known to break, at a step that touches the hazard, gets its own key"""
+        for h in sorted(self._hazards):
+            if HAZARD_CLAUSE.get(h) == clause:
+                return h + "/" + clause
+        return clause
+
     def _check_inner(self, eff, raised, pre_keys):
         import traceback
-        hz = (sorted(eff.hazards)[0] + "/") if eff.hazards else ""
+        self._hazards = eff.hazards
         recs, self.env.catcher.records[:] = list(self.env.catcher.records), []
         # no handler raises (the event dispatcher swallows and logs handler exceptions)
         errs = []
@@ -623,17 +647,17 @@ class World:
             else:
                 errs.append("logged error: " + rec.getMessage()[:160])
         if errs:
-            raise Failure(hz + "raise", "no handler raises", "; ".join(errs[:3]))
+            raise Failure(self._key("raise"), "no handler raises", "; ".join(errs[:3]))
         if clobber:
-            raise Failure(hz + "index/clobber", "an object was tracked under a local id that another live object still held "
+            raise Failure(self._key("index/clobber"), "an object was tracked under a local id that another live object still held "
                           "(the history never gives one local id to two live objects)", clobber)
         try:
-            self._check_graph(hz)
+            self._check_graph()
         except ReferenceError as e:
-            raise Failure(hz + "links/dangling", "Parent/Children links only point at tracked objects", "dead weak reference: %s" % e)
-        self._check_futures(eff, hz, pre_keys)
+            raise Failure(self._key("links/dangling"), "Parent/Children links only point at tracked objects", "dead weak reference: %s" % e)
+        self._check_futures(eff, pre_keys)
 
-    def _check_graph(self, hz):
+    def _check_graph(self):
         model, world = self.model, self.session.objects
         expected_full = {}
         for r in (0, 1):
@@ -643,10 +667,10 @@ class World:
             live = model.live(r)
             lookup = state.localid_lookup
             if set(lookup) != set(live):
-                raise Failure(hz + "index/live-set", "the local-id index holds exactly the objects announced and not since killed or unloaded",
+                raise Failure(self._key("index/live-set"), "the local-id index holds exactly the objects announced and not since killed or unloaded",
                               "region %d: tracked local ids %s, reference %s" % (handle, sorted(lookup), sorted(live)))
             if (world._get_region_manager(handle) is not None) != model.tracked[r]:
-                raise Failure(hz + "index/region", "a region's object manager is registered with the world exactly while the region is up",
+                raise Failure(self._key("index/region"), "a region's object manager is registered with the world exactly while the region is up",
                               "region %d registered=%s, reference %s" % (handle, world._get_region_manager(handle) is not None, model.tracked[r]))
             orphans = model.orphans(r)
             for local, fi in live.items():
@@ -654,58 +678,58 @@ class World:
                 _, _, parent, _ = model.objs[fi]
                 expected_full[fi] = obj
                 if obj.LocalID != local or obj.FullID != full_uuid(fi) or obj.RegionHandle != handle:
-                    raise Failure(hz + "index/identity", "an object is filed under its own local id in its own region",
+                    raise Failure(self._key("index/identity"), "an object is filed under its own local id in its own region",
                                   "region %d local %d holds object LocalID=%r FullID=%s RegionHandle=%r, reference full id %s"
                                   % (handle, local, obj.LocalID, obj.FullID, obj.RegionHandle, full_uuid(fi)))
                 if obj.ParentID != parent:
-                    raise Failure(hz + "index/identity", "an object names the parent last announced for it",
+                    raise Failure(self._key("index/identity"), "an object names the parent last announced for it",
                                   "region %d local %d: ParentID %r, reference %d" % (handle, local, obj.ParentID, parent))
                 if world.lookup_fullid(full_uuid(fi)) is not obj or region.objects.lookup_fullid(full_uuid(fi)) is not obj \
                         or region.objects.lookup_localid(local) is not obj:
-                    raise Failure(hz + "index/agreement", "lookup by local id and lookup by full id give the same object",
+                    raise Failure(self._key("index/agreement"), "lookup by local id and lookup by full id give the same object",
                                   "region %d local %d / full id %s" % (handle, local, full_uuid(fi)))
                 # parent -> children
                 want = model.children(r, local)
                 if sorted(obj.ChildIDs) != want:
-                    raise Failure(hz + "links/children", "an object's children are exactly the tracked objects naming it as parent",
+                    raise Failure(self._key("links/children"), "an object's children are exactly the tracked objects naming it as parent",
                                   "region %d local %d: ChildIDs %s, reference %s" % (handle, local, list(obj.ChildIDs), want))
                 if len(obj.Children) != len(obj.ChildIDs) or any(lookup.get(cid) is None or c.LocalID != cid or c.FullID != lookup[cid].FullID
                                                                  for cid, c in zip(obj.ChildIDs, obj.Children)):
-                    raise Failure(hz + "links/children", "Children and ChildIDs list the same tracked objects in the same order",
+                    raise Failure(self._key("links/children"), "Children and ChildIDs list the same tracked objects in the same order",
                                   "region %d local %d: ChildIDs %s, Children %s" % (handle, local, list(obj.ChildIDs), [c.LocalID for c in obj.Children]))
                 # child -> parent
                 if parent and parent in live:
                     if obj.Parent is None or obj.Parent.LocalID != parent or obj.Parent.FullID != lookup[parent].FullID:
-                        raise Failure(hz + "links/parent", "an object whose parent is tracked is linked to it",
+                        raise Failure(self._key("links/parent"), "an object whose parent is tracked is linked to it",
                                       "region %d local %d names parent %d: Parent is %s" %
                                       (handle, local, parent, "None" if obj.Parent is None else "local %r" % obj.Parent.LocalID))
                 elif obj.Parent is not None:
-                    raise Failure(hz + "links/parent", "an object without a tracked parent has no parent link",
+                    raise Failure(self._key("links/parent"), "an object without a tracked parent has no parent link",
                                   "region %d local %d (parent %d): Parent is local %r" % (handle, local, parent, obj.Parent.LocalID))
             actual = {k: sorted(v) for k, v in list(state._orphans.items()) if v}
             if actual != orphans:
-                raise Failure(hz + "orphans", "the orphan lists hold exactly the tracked objects whose named parent is not tracked",
+                raise Failure(self._key("orphans"), "the orphan lists hold exactly the tracked objects whose named parent is not tracked",
                               "region %d: orphan lists %s, reference %s" % (handle, actual, orphans))
             if len(region.objects) != len(live):
-                raise Failure(hz + "index/live-set", "len(region.objects) counts the live objects", "region %d: %d vs %d" % (handle, len(region.objects), len(live)))
+                raise Failure(self._key("index/live-set"), "len(region.objects) counts the live objects", "region %d: %d vs %d" % (handle, len(region.objects), len(live)))
         for fi, v in model.objs.items():
             if v[0] is None:
                 # moved into a region the session does not know: kept by full id only (test_object_moved_to_bad_region)
                 obj = world.lookup_fullid(full_uuid(fi))
                 if obj is None or obj.FullID != full_uuid(fi):
-                    raise Failure(hz + "index/full-set", "an object that moved to an unknown region stays known by full id",
+                    raise Failure(self._key("index/full-set"), "an object that moved to an unknown region stays known by full id",
                                   "full id %s not found" % full_uuid(fi))
                 expected_full[fi] = obj
         actual_full = set(world._fullid_lookup.keys())
         want_full = {full_uuid(fi) for fi in expected_full}
         if actual_full != want_full or len(world) != len(want_full):
-            raise Failure(hz + "index/full-set", "the full-id index holds exactly the objects announced and not since killed or unloaded",
+            raise Failure(self._key("index/full-set"), "the full-id index holds exactly the objects announced and not since killed or unloaded",
                           "full-id index %s, reference %s" % (sorted(str(u)[-2:] for u in actual_full), sorted(str(u)[-2:] for u in want_full)))
         for fi, obj in expected_full.items():
             if world._fullid_lookup[full_uuid(fi)] is not obj:
-                raise Failure(hz + "index/agreement", "lookup by local id and lookup by full id give the same object", "full id %s" % full_uuid(fi))
+                raise Failure(self._key("index/agreement"), "lookup by local id and lookup by full id give the same object", "full id %s" % full_uuid(fi))
 
-    def _check_futures(self, eff, hz, pre_keys):
+    def _check_futures(self, eff, pre_keys):
         keep = []
         for rec in self.futs:
             r, local, typ, fut = rec
@@ -714,23 +738,23 @@ class World:
             if must_finish:
                 if not fut.done():
                     multi = pre_keys is not None and len({k[1] for k in pre_keys[r] if k[0] == local}) > 1
-                    raise Failure(hz + "futures/left-pending" + ("/both-request-types" if multi else ""),
+                    raise Failure("futures/left-pending" + ("/both-request-types" if multi else ""),
                                   "a pending request for a local id is cancelled when that object is killed, leaves the region or the region goes away",
                                   "%s request for region %d local %d still pending" % (typ, HANDLES[r], local))
                 continue
             if (r, local, typ) in eff.resolved:
                 obj = state.localid_lookup.get(local)
                 if not fut.done() or fut.cancelled() or fut.exception() is not None or fut.result() is not obj:
-                    raise Failure(hz + "futures/unresolved", "a pending request is resolved with the object when the matching update / property reply arrives",
+                    raise Failure(self._key("futures/unresolved"), "a pending request is resolved with the object when the matching update / property reply arrives",
                                   "%s request for region %d local %d: %s" % (typ, HANDLES[r], local, "pending" if not fut.done() else "cancelled or wrong object"))
                 continue
             if (r, local, typ) in eff.may and fut.done():
                 if fut.cancelled() or fut.exception() is not None or fut.result() is not state.localid_lookup.get(local):
-                    raise Failure(hz + "futures/unresolved", "a request resolves with the object it asked for",
+                    raise Failure(self._key("futures/unresolved"), "a request resolves with the object it asked for",
                                   "%s request for region %d local %d finished wrongly" % (typ, HANDLES[r], local))
                 continue
             if fut.done():
-                raise Failure(hz + "futures/spurious", "a request stays pending until something happens to its local id",
+                raise Failure(self._key("futures/spurious"), "a request stays pending until something happens to its local id",
                               "%s request for region %d local %d finished (%s) although nothing happened to that local id"
                               % (typ, HANDLES[r], local, "cancelled" if fut.cancelled() else "resolved"))
             keep.append(rec)
@@ -815,8 +839,9 @@ def describe(step):
 
 
 class _Recorder:
-    def __init__(self, env):
+    def __init__(self, env, saturate_at=25):
         self.env = env
+        self.saturate_at = saturate_at
         self.failures = []
         self.shrunk_keys = set()
         self.counts = {}               # failure key -> occurrences (at most 2 are kept)
@@ -824,7 +849,7 @@ class _Recorder:
 
     def saturated(self, hazard):
         """a hazard that failed this often is a defect already reported: stop spending sessions on it"""
-        return self.hazard_failures.get(hazard, 0) >= 25
+        return self.hazard_failures.get(hazard, 0) >= self.saturate_at
 
     def record(self, config, steps, f):
         self.counts[f.key] = self.counts.get(f.key, 0) + 1
@@ -873,7 +898,7 @@ def _perm_state(key, perm):
     tracked, objs = key
     t2 = [None, None]
     t2[sig[0]], t2[sig[1]] = tracked[0], tracked[1]
-    return (tuple(t2), tuple(sorted((tau[f], -1, 0, 0) if r is None or r == -1 else (tau[f], sig[r], rho[l], rho[p]) for (f, r, l, p) in objs)))
+    return (tuple(t2), tuple(sorted((tau[f], -1, 0, 0) if r == -1 else (tau[f], sig[r], rho[l], rho[p]) for (f, r, l, p) in objs)))
 
 
 def _perm_letter(a, perm):
@@ -886,6 +911,29 @@ def _perm_letter(a, perm):
     return (a[0], sig[a[1]])
 
 
+def _inv_perm(perm):
+    sig, rho, tau = perm
+    return (tuple(sig.index(i) for i in range(3)), {v: k for k, v in rho.items()}, tuple(tau.index(i) for i in range(3)))
+
+
+def _perm_step(a, perm):
+    """image of a structural message (alphabet form) under a renaming"""
+    sig, rho, tau = perm
+    if a[0] == "upd":
+        (l, f, p), = a[3]
+        return ("upd", None, sig[a[2]], ((rho[l], tau[f], rho[p]),))
+    if a[0] == "kill":
+        return ("kill", sig[a[1]], (rho[a[2][0]],))
+    return (a[0], sig[a[1]])
+
+
+def _model_from_key(key):
+    m = Model()
+    m.tracked = list(key[0])
+    m.objs = {f: [None if r == -1 else r, l, p, 0] for (f, r, l, p) in key[1]}
+    return m
+
+
 def bounded_transitions(reg, tier, seed):
     rng = random.Random(seed * 7919 + 14)
     env = Env()
@@ -893,32 +941,42 @@ def bounded_transitions(reg, tier, seed):
     level = "full" if tier == "quick" else "partial"
     perms = _perms(level)
     alphabet = structural_alphabet()
-    budget = 26000 if tier == "quick" else 260000
+    budget = 14000 if tier == "quick" else 200000
     max_len = 60
-    info = {}                 # concrete state key -> (class key, [(letter, canonical letter, hazards, successor model | None)])
-    pending = {}              # class key -> canonical letters not yet executed from a state of the class
+    canon_cache = {}          # scene graph key -> (class key = least image under the renamings, renamings that give it)
+    class_info = {}           # class key -> [(message in the class representative's names, its orbit under the stabiliser, hazards,
+    #                                          class of the successor | None if the scene graph does not change)]
+    pending = {}              # class key -> message orbits not yet executed from a scene graph of the class
     hist = {}                 # class key -> shortest concrete history seen that reaches it
     unreachable = set()
     executed, distinct, samples = 0, set(), []
     pairs_done = moved = resets = skipped = 0
 
-    def state_info(model):
-        k = model.key()
-        inf = info.get(k)
-        if inf is None:
+    def canon(k):
+        c = canon_cache.get(k)
+        if c is None:
             imgs = [(_perm_state(k, p), p) for p in perms]
             ck = min(i[0] for i in imgs)
-            mins = [p for (img, p) in imgs if img == ck]
+            c = canon_cache[k] = (ck, [p for (img, p) in imgs if img == ck])
+        return c
+
+    def state_info(model):
+        """-> (class key, its letters, renaming from the class representative's names to this scene graph's names)"""
+        ck, mins = canon(model.key())
+        letters = class_info.get(ck)
+        if letters is None:
+            rep = _model_from_key(ck)
+            stab = canon(ck)[1]
             letters = []
             for a in alphabet:
-                if model.enabled(a):
-                    m2 = model.copy()
+                if rep.enabled(a):
+                    m2 = rep.copy()
                     eff = m2.apply(a)
-                    letters.append((a, min(_perm_letter(a, p) for p in mins), tuple(sorted(eff.hazards)), m2 if m2.key() != k else None))
-            inf = info[k] = (ck, letters)
-            if ck not in pending:
-                pending[ck] = {ca for _, ca, _, _ in letters}
-        return inf
+                    k2 = m2.key()
+                    letters.append((a, min(_perm_letter(a, p) for p in stab), tuple(sorted(eff.hazards)), canon(k2)[0] if k2 != ck else None))
+            class_info[ck] = letters
+            pending[ck] = {ca for _, ca, _, _ in letters}
+        return ck, letters, _inv_perm(mins[0])
 
     def decoration(world):
         model = world.model
@@ -930,7 +988,7 @@ def bounded_transitions(reg, tier, seed):
         if roll < 0.45:
             typ = rng.choice((UPDATE, PROPERTIES))
             if rec.saturated("both-request-types") and world.requested.get((r, local), {typ}) != {typ}:
-                typ = next(iter(world.requested[(r, local)]))
+                typ = sorted(world.requested[(r, local)])[0]
             return ("req", r, local, typ)
         if roll < 0.6:
             return ("terse", r, local)
@@ -941,7 +999,8 @@ def bounded_transitions(reg, tier, seed):
             return ("props", rng.randrange(N_FULL), rng.random() < 0.3)
         return ("tick",)
 
-    def concrete(a):
+    def concrete(a, back):
+        a = _perm_step(a, back)
         return ("upd", rng.choice(("full", "comp")), a[2], a[3]) if a[0] == "upd" else a
 
     def run(world, steps):
@@ -963,9 +1022,9 @@ def bounded_transitions(reg, tier, seed):
         while executed < budget:
             cands, moves = [], []
             if world is not None and len(world.steps) < max_len:
-                ck, letters = state_info(world.model)
+                ck, letters, back = state_info(world.model)
                 todo = pending[ck]
-                for (a, ca, hz, m2) in letters:
+                for (a, ca, hz, ck2) in letters:
                     if ca in todo:
                         if hz and any(rec.saturated(h) for h in hz):
                             todo.discard(ca)        # the defect behind this hazard is reported; do not spend a session per pair on it
@@ -974,11 +1033,12 @@ def bounded_transitions(reg, tier, seed):
                             cands.append((a, ca))
                 if not cands:
                     # nothing left to try here: one message that leads to a scene graph with unexecuted messages, if there is one
-                    moves = [a for (a, ca, hz, m2) in letters if m2 is not None and not hz and pending[state_info(m2)[0]]]
+                    moves = [a for (a, ca, hz, ck2) in letters if ck2 is not None and not hz and pending.get(ck2, True)]
             if cands:
                 a, ca = cands[rng.randrange(len(cands))]
                 todo.discard(ca)
-                steps = [concrete(a)]
+                steps = [concrete(a, back)]
+                assert world.model.enabled(steps[0]), steps
                 if rng.random() < 0.15:
                     steps.insert(0, decoration(world))
                 if not run(world, steps):
@@ -986,7 +1046,7 @@ def bounded_transitions(reg, tier, seed):
                     world = None
                     continue
                 pairs_done += 1
-                ck2, _ = state_info(world.model)
+                ck2 = canon(world.model.key())[0]
                 if ck2 not in hist or len(world.steps) < len(hist[ck2]):
                     hist[ck2] = list(world.steps)
                 if len(samples) < 3 and len(world.steps) == 6:
@@ -994,7 +1054,7 @@ def bounded_transitions(reg, tier, seed):
                 continue
             if moves:
                 moved += 1
-                if not run(world, [concrete(moves[rng.randrange(len(moves))])]):
+                if not run(world, [concrete(moves[rng.randrange(len(moves))], back)]):
                     world.close()
                     world = None
                 continue
@@ -1003,7 +1063,7 @@ def bounded_transitions(reg, tier, seed):
                 world.close()
             world = World(env, DEFAULT_CONFIG)
             resets += 1
-            ck0, _ = state_info(world.model)
+            ck0 = state_info(world.model)[0]
             hist.setdefault(ck0, [])
             if pending[ck0]:
                 continue
@@ -1055,8 +1115,9 @@ def _random_config(rng, locals_, n_full):
     return {"allow_auto": rng.random() < 0.7, "auto_missing": rng.random() < 0.5, "vo_cache": rng.random() < 0.3, "cache": cache}
 
 
-def _random_step(rng, model, locals_, n_full, futs_pending):
+def _random_step(rng, world, locals_, n_full, rec):
     """one enabled step, or None"""
+    model = world.model
     live = [(v[0], v[1], f) for f, v in sorted(model.objs.items()) if v[0] is not None]
     down = [r for r in (0, 1) if not model.tracked[r]]
     for _ in range(30):
@@ -1102,16 +1163,24 @@ def _random_step(rng, model, locals_, n_full, futs_pending):
             st = ("tick",)
         else:
             st = ("down", rng.choice((0, 1)))
-        if model.enabled(st):
-            return st
+        if not model.enabled(st):
+            continue
+        if rec.hazard_failures:
+            # a hazard whose defect is already reported 25 times: keep the walks going instead of ending each of them on it
+            hz = model.copy().apply(st).hazards
+            if any(rec.saturated(h) for h in hz):
+                continue
+            if st[0] == "req" and rec.saturated("both-request-types") and world.requested.get((st[1], st[2]), {st[3]}) != {st[3]}:
+                continue
+        return st
     return None
 
 
 def bounded_random_walks(reg, tier, seed):
     rng = random.Random(seed * 104729 + 1414)
     env = Env()
-    rec = _Recorder(env)
-    walks = 150 if tier == "quick" else 2500
+    rec = _Recorder(env, saturate_at=5)
+    walks = 150 if tier == "quick" else 2000
     locals_, n_full = (1, 2, 3, 4), 5
     executed, distinct, samples = 0, set(), []
     kinds = {}
@@ -1121,7 +1190,7 @@ def bounded_random_walks(reg, tier, seed):
             world = World(env, config)
             try:
                 for _ in range(rng.randrange(20, 70)):
-                    st = _random_step(rng, world.model, locals_, n_full, world.futs)
+                    st = _random_step(rng, world, locals_, n_full, rec)
                     if st is None:
                         break
                     pre = world.model.key()
@@ -1145,5 +1214,6 @@ def bounded_random_walks(reg, tier, seed):
                     "ticks; proxy settings and viewer cache contents vary per session; the whole tracked world and every pending request are "
                     "checked against the scene graph after every step. distinct = distinct (scene graph before, step)" % walks,
             "bounded": True, "bounds": {"walks": walks, "local_ids": list(locals_), "full_ids": "4 prims + 1 avatar (index 2)",
-                                        "regions": "2 known + 1 unknown handle", "steps_by_kind": kinds},
+                                        "regions": "2 known + 1 unknown handle", "steps_by_kind": kinds,
+                                        "failures_by_key": dict(sorted(rec.counts.items()))},
             "samples": samples, "failures": rec.failures}
